@@ -49,14 +49,15 @@ static struct ent *snap_find(struct snap *sn, const char *n) { for (int i = 0; i
 static bool vol(const char *n) { return !strncmp(n, "tcp.rtt", 7) || !strncmp(n, "tcp.total_retrans", 17) || !strncmp(n, "tcp.segs", 8) || strstr(n, "_bytes") || strstr(n, "_msgs"); }
 
 /* the owner services its sockets (that is when control requests are processed) */
-struct owner { struct xcm_socket *s[3]; int n; bool bytestream; };
+struct owner { struct xcm_socket *s[3]; int n; bool bytestream; bool dead[3]; };
 /* XCM looks at the control descriptors on every fifth call that would block (or every 257th that succeeds): an idle event loop
  * turn is a receive / accept that reports EAGAIN */
 static void owner_service(struct owner *o)
 {
     unsigned char b[64];
     for (int k = 0; k < 5; k++) {
-        for (int i = 0; i < 2; i++) { SCX("xcm_receive", i); xcm_receive(o->s[i], b, sizeof b); vs_leave(); }
+        for (int i = 0; i < 2; i++) { SCX("xcm_receive", i); errno = 0; int rc = xcm_receive(o->s[i], b, sizeof b); int se = errno; vs_leave();
+            if (rc < 0 && se != EAGAIN && !o->dead[i]) { o->dead[i] = true; cv("data-path-errno", "xcm_receive", "xcm_receive on the owner's healthy, idle connection returned -1 with errno %d (%s) while control sessions were being served (EAGAIN is the only right answer)", se, strerror(se)); } }
         { SCX("xcm_accept", 2); struct xcm_socket *x = xcm_accept(o->s[2]); if (x) xcm_close(x); vs_leave(); }
     }
 }
@@ -160,6 +161,43 @@ struct ccase { enum vtp tp; int flavour; /* 0 plain, 1 by-value creds, 2 many SA
 
 static struct vpki_ent *san_leaf[4]; static const int san_counts[4] = { 1, 12, 40, 80 };
 
+
+/* ---- the control directory's name has the critical length: "<dir>/ctl-<pid>-<id>" is exactly what a UNIX socket address holds (107
+ * characters) or one more.  A name that does not fit is no control socket at all - never a file under a shortened name, which would be the
+ * name of another socket ---- */
+static int ndigits(long v) { int n = 1; while (v >= 10) { v /= 10; n++; } return n; }
+static void critical_ctl_dir_case(vrng *r)
+{
+    char shortd[700]; snprintf(shortd, sizeof shortd, "%s/ctlp-%d", va.dir, (int)getpid()); mkdir(shortd, 0700);
+    setenv("XCM_CTL", shortd, 1); vs_ledger_reset();
+    char ua[96]; snprintf(ua, sizeof ua, "ux:c14p-%d", (int)getpid());
+    struct xcm_socket *probe = xcm_server(ua); long id0 = -1;
+    if (probe) { DIR *d = opendir(shortd); struct dirent *de; while (d && (de = readdir(d))) if (!strncmp(de->d_name, "ctl-", 4)) id0 = atol(strrchr(de->d_name, '-') + 1); if (d) closedir(d); xcm_close(probe); }
+    rmdir(shortd);
+    if (id0 < 0 || ndigits(id0 + 1) != ndigits(id0 + 3)) { vobs("critical_dir_skipped", 1); return; }
+    int total = vrnd_p(r, 50) ? 108 : 107;
+    int L = total - (1 + 4 + ndigits((long)getpid()) + 1 + ndigits(id0 + 1));
+    char longd[300]; int k = snprintf(longd, sizeof longd, "%s/q", va.dir);
+    if (k + 2 > L || L >= (int)sizeof longd) { vobs("critical_dir_skipped", 1); return; }
+    while (k < L) longd[k++] = 'q'; longd[k] = 0;
+    mkdir(longd, 0700); setenv("XCM_CTL", longd, 1); vs_ledger_reset();
+    struct xcm_socket *sv[3] = { 0 };
+    for (int i = 0; i < 3; i++) { snprintf(ua, sizeof ua, "ux:c14q-%d-%d", (int)getpid(), i); sv[i] = xcm_server(ua); }
+    vobs(total == 108 ? "control_paths_one_too_long" : "control_paths_just_fitting", 1);
+    int nfiles = 0; char bad[200] = "";
+    { DIR *d = opendir(longd); struct dirent *de;
+      while (d && (de = readdir(d))) { if (de->d_name[0] == '.') continue; nfiles++;
+          char want[3][64]; bool ok = false; for (int i = 0; i < 3; i++) { snprintf(want[i], 64, "ctl-%d-%ld", (int)getpid(), id0 + 1 + i); if (!strcmp(want[i], de->d_name)) ok = true; }
+          if (!ok && !bad[0]) snprintf(bad, sizeof bad, "%s", de->d_name); }
+      if (d) closedir(d); }
+    if (bad[0]) cv("control-file-name", total == 108 ? "path-one-too-long" : "path-just-fitting", "sockets %ld..%ld of process %d, control directory of %d characters (full paths %d characters): the directory holds '%s', which is not the name of any of them", id0 + 1, id0 + 3, (int)getpid(), L, total, bad);
+    else if (total == 107 && nfiles != 3) cv("control-socket-missing", "path-just-fitting", "full control paths of 107 characters fit a UNIX socket address, yet %d of 3 control files exist", nfiles);
+    else if (total == 108 && nfiles != 0) cv("control-file-name", "path-one-too-long", "%d control files exist although no full path fits", nfiles);
+    for (int i = 0; i < 3; i++) if (sv[i]) xcm_close(sv[i]);
+    { DIR *d = opendir(longd); struct dirent *de; int left = 0; while (d && (de = readdir(d))) if (de->d_name[0] != '.') left++; if (d) closedir(d); if (left) cv("control-file-left", "critical-dir", "%d file(s) left in the control directory after the sockets were closed", left); }
+    rmdir(longd);
+}
+
 static void one_case(long idx, void *arg)
 {
     (void)arg;
@@ -172,6 +210,7 @@ static void one_case(long idx, void *arg)
     if (!vtp_is_tls(c.tp)) c.flavour = 0;
     snprintf(ctx, sizeof ctx, "{\"case\":%ld,\"sub_seed\":\"%" PRIu64 "\",\"transport\":\"%s\",\"flavour\":\"%s\",\"peer_sans\":%d}", idx, ss, vtp_name[c.tp], c.flavour == 0 ? "plain" : c.flavour == 1 ? "tls-by-value" : c.flavour == 2 ? "many-sans" : "long-paths", c.flavour == 2 ? san_counts[c.nsan] : 0);
     VLOG("case %s", ctx);
+    if ((idx % 5) == 4) critical_ctl_dir_case(&r);
     snprintf(ctl_dir, sizeof ctl_dir, "%s/ctl14-%d", va.dir, (int)getpid()); mkdir(ctl_dir, 0700);
     setenv("XCM_CTL", ctl_dir, 1); vs_ledger_reset();
     /* owner sockets */
@@ -280,9 +319,13 @@ static void one_case(long idx, void *arg)
                 else vobs("libxcmctl_get_all_ok", 1);
             }
         } else if (act < 85) {
-            /* mis-speaking sessions */
+            /* mis-speaking sessions; half of the time a well-behaved session sits in the other (lower) seat and has a get-all waiting when
+             * the bad request arrives, so that both are dealt with in one and the same turn of the owner */
+            int fgood = -1;
+            if (vrnd_p(&r, 50)) { for (int t = 0; t < 50 && fgood < 0; t++) { fgood = vctl_connect_path(path); if (fgood < 0) owner_service(&ow); } for (int i = 0; i < 3; i++) owner_service(&ow); }
             fd = -1; for (int t = 0; t < 50 && fd < 0; t++) { fd = vctl_connect_path(path); if (fd < 0) owner_service(&ow); }
-            if (fd < 0) { free(m); continue; }
+            if (fd < 0) { if (fgood >= 0) close(fgood); free(m); continue; }
+            if (fgood >= 0) { for (int i = 0; i < 3; i++) owner_service(&ow); vctl_send_get_all(fgood); vobs("bad_request_next_to_a_waiting_get_all", 1); }
             struct ctl_proto_msg *q = calloc(1, sizeof *q);
             switch (vrnd_n(&r, 8)) {
             case 0: vctl_send_raw(fd, q, 1 + vrnd_n(&r, 100)); break;                                    /* too short */
@@ -300,6 +343,7 @@ static void one_case(long idx, void *arg)
             if (n > 0) { scan_for_key(m, (size_t)n, "raw"); if (n == (long)sizeof *m && m->type == ctl_proto_type_get_attr_cfm && os) vobs("malformed_request_answered", 1); }
             if (vrnd_p(&r, 50)) { vctl_send_get(fd, "xcm.type"); raw_wait_reply(fd, &ow, m, 30); }
             close(fd);
+            if (fgood >= 0) { long n2 = raw_wait_reply(fgood, &ow, m, 600); if (n2 == 0) cv("no-reply", "get-all-next-to-a-bad-session", "a well-formed get_all got no reply while another session misbehaved"); else if (n2 > 0 && os) check_get_all_reply(os, m, n2, "raw-next-to-bad-session", true); close(fgood); for (int i = 0; i < 4; i++) owner_service(&ow); }
         } else if (act < 92 && os) {
             /* session slots are reused: A and B are open, B has a request in flight, A leaves, C arrives - C must get the answer to its own request */
             int fa = -1, fb = -1, fc = -1;
